@@ -89,7 +89,7 @@ func (w *world) enabled() []op {
 	if len(w.objs) < maxObjs {
 		for i, o := range w.objs {
 			if o.isCtx {
-				out = append(out, op{"c.Str", i}, op{"c.Big", i}, op{"c.BigObj", i}, op{"c.Ctx", i}, op{"c.Logger", i}, op{"c.Stack", i})
+				out = append(out, op{"c.Str", i}, op{"c.Big", i}, op{"c.BigObj", i}, op{"c.Ctx", i}, op{"c.Logger", i}, op{"c.Stack", i}, op{"c.Reset", i})
 			} else {
 				out = append(out, op{"l.With", i}, op{"l.Level", i}, op{"l.Output", i}, op{"l.Hook", i}, op{"l.HookCtx", i}, op{"l.WithStr", i}, op{"l.Sample", i})
 			}
@@ -167,6 +167,12 @@ func (w *world) apply(o op) {
 		m := src.m.Clone()
 		m.Ctx = append(m.Ctx, seqx.FieldsExp([]seqx.Field{f})...)
 		w.objs = append(w.objs, &obj{isCtx: true, cx: seqx.ApplyContext(src.cx, f), m: m, origin: "c.Str", parent: o.tgt, fromCtxValue: true})
+	case "c.Reset": // the context fields start over, with one field short enough (5 bytes) to fit into whatever spare room an "empty" context has
+		src := w.objs[o.tgt]
+		f := seqx.Field{M: "Int", Key: string(rune('a' + w.n%26)), Val: w.n % 10}
+		m := src.m.Clone()
+		m.Ctx = seqx.FieldsExp([]seqx.Field{f})
+		w.objs = append(w.objs, &obj{isCtx: true, cx: seqx.ApplyContext(src.cx.Reset(), f), m: m, origin: "c.Str", parent: o.tgt, fromCtxValue: true})
 	case "c.Ctx":
 		src := w.objs[o.tgt]
 		m := src.m.Clone()
